@@ -142,7 +142,8 @@ type faultCase struct {
 	Sizes   []int  `json:"sizes,omitempty"`
 	Rest    int    `json:"rest,omitempty"`
 	EOFData bool   `json:"eofWithData,omitempty"`
-	K       int    `json:"k,omitempty"` // prefix length / sink byte limit / sink failing call
+	K       int    `json:"k,omitempty"`     // prefix length / sink byte limit / sink failing call
+	Sweep   bool   `json:"sweep,omitempty"` // size sweep: lighter proof oracle (singletons, neighbours, all)
 }
 
 var faultInsts = []InstCfg{
@@ -159,6 +160,9 @@ var faultInsts = []InstCfg{
 func faultSetup(x *Exec, fc faultCase) (*HistFamily, []*inst, *histModel, []byte, bool) {
 	cfg := faultInsts[fc.Inst]
 	fam := &HistFamily{Nmax: 64, Insts: []InstCfg{cfg}, Or: HistOracle{Roots: true, Lookups: true, Proofs: true, ProofSets: "small", Prop: "C13"}, PermLimit: 2}
+	if fc.Sweep || len(fc.Hist) > 0 && fc.Hist[0].Adds > 20 {
+		fam.Or.ProofSets = "tall"
+	}
 	insts, md, ok := fam.run(x, fc.Hist)
 	if !ok {
 		return fam, nil, nil, nil, false
@@ -319,14 +323,15 @@ func init() {
 
 	Checks["C13"] = func(c *Ctx) {
 		ncat := pick(c, 5, 7)
-		c.Cov.Rule = "states = all states of the forward BFS with N<=Ncat on Pollard and MapPollard (full TR 0/63, partial remember-all TR 0, remember-even TR 3/63), map iteration order of MapPollard.Write owned by the harness (ascending, descending); per (state, instance): (a) restore through conforming readers: whole, fixed chunk sizes {1,2,3,5,7,8,9,16,31,32,33,34,64,L/2,L-1}, each also with data-with-EOF on the last read, and every sequence of four first read sizes over {1,2,8,33} followed by whole reads; the restored forest must match the reference model on roots, leaf count, positions, GetHash, provable set and proofs, and all byte counts and SerializeSize must equal the stream length; (b) every strict prefix under whole, 1-byte and data-with-EOF readers: error, or a forest identical to the original, never a panic; (c) a sink that accepts exactly k bytes for every k<L and one that fails at call i for every i: an error, never a panic; (d) a second BFS with serialize/restore as a transition (budget 1) followed by every later block and by Undo of blocks applied before the restore, full observational oracle plus a differential comparison (GetHash on every position, every leaf position) with a twin instance that was never serialized; larger structured states (40..600 leaves, streams up to 20 KB) get the same treatment; non-trivial = fault points on states with a dead leaf"
+		c.Cov.Rule = "states = all states of the forward BFS with N<=Ncat on Pollard and MapPollard (full TR 0/63, partial remember-all TR 0, remember-even TR 3/63), map iteration order of MapPollard.Write owned by the harness (ascending, descending); per (state, instance): (a) restore through conforming readers: whole, fixed chunk sizes {1,2,3,5,7,8,9,16,31,32,33,34,64,L/2,L-1}, each also with data-with-EOF on the last read, and every sequence of four first read sizes over {1,2,8,33} followed by whole reads; the restored forest must match the reference model on roots, leaf count, positions, GetHash, provable set and proofs, and all byte counts and SerializeSize must equal the stream length; (b) every strict prefix under whole, 1-byte and data-with-EOF readers: error, or a forest identical to the original, never a panic; (c) a sink that accepts exactly k bytes for every k<L and one that fails at call i for every i: an error, never a panic; (d) a second BFS with serialize/restore as a transition (budget 1) followed by every later block and by Undo of blocks applied before the restore, full observational oracle plus a differential comparison (GetHash on every position, every leaf position) with a twin instance that was never serialized; larger structured states (40..600 leaves, streams up to 20 KB) get the same treatment; a size sweep serializes every forest size from 1 to Nsweep leaves (all alive / one deletion) through three readers and two truncations; non-trivial = fault points on states with a dead leaf"
 		c.Cov.Bound["Ncat"] = ncat
 		collect := &HistFamily{Nmax: ncat, Insts: []InstCfg{{Kind: "pollard"}, {Kind: "map", Full: true, TR: 0}, {Kind: "map", Full: false, TR: 0, Mode: "all"}}, Or: HistOracle{Prop: "C13"}}
 		type task struct {
-			hist []Op
-			inst int
-			ord  string
-			dead bool
+			hist  []Op
+			inst  int
+			ord   string
+			dead  bool
+			sweep bool // size sweep: whole / 7-byte / data-with-EOF readers and the two longest prefixes only
 		}
 		var tasks []task
 		sub := NewCov()
@@ -340,7 +345,7 @@ func init() {
 					ords = append(ords, "desc")
 				}
 				for _, o := range ords {
-					tasks = append(tasks, task{n.Hist, i, o, md.s.NumLive() < md.s.N()})
+					tasks = append(tasks, task{hist: n.Hist, inst: i, ord: o, dead: md.s.NumLive() < md.s.N()})
 				}
 			}
 		})
@@ -379,11 +384,23 @@ func init() {
 					ords = append(ords, "desc")
 				}
 				for _, o := range ords {
-					tasks = append(tasks, task{h, i, o, true})
+					tasks = append(tasks, task{hist: h, inst: i, ord: o, dead: true})
 				}
 			}
 		}
 		c.Cov.AddStates(int64(len(bigHists)))
+		// size sweep: every forest size 1..Nsweep (all alive, and with leaf 0 deleted), so that every
+		// node / record count up to a few hundred is serialized at least once
+		nsweep := pick(c, 140, 700)
+		c.Cov.Bound["size_sweep"] = fmt.Sprintf("1..%d leaves", nsweep)
+		for N := 1; N <= nsweep; N++ {
+			for _, h := range [][]Op{{{Kind: "block", Adds: N}}, {{Kind: "block", Adds: N}, {Kind: "block", Dels: []int{0}}}} {
+				for _, i := range []int{0, 1, 3, 4} {
+					tasks = append(tasks, task{hist: h, inst: i, ord: "asc", dead: len(h) > 1, sweep: true})
+				}
+			}
+		}
+		c.Cov.AddStates(int64(2 * nsweep))
 		fixed := []int{1, 2, 3, 5, 7, 8, 9, 16, 31, 32, 33, 34, 64}
 		firsts := []int{1, 2, 8, 33}
 		ok := parallelFor(c, len(tasks), func(i int) {
@@ -397,9 +414,30 @@ func init() {
 			}
 			L := len(data)
 			var cases []faultCase
-			add := func(fc faultCase) { fc.Hist, fc.Inst, fc.Order = tk.hist, tk.inst, tk.ord; cases = append(cases, fc) }
+			add := func(fc faultCase) {
+				fc.Hist, fc.Inst, fc.Order, fc.Sweep = tk.hist, tk.inst, tk.ord, tk.sweep
+				cases = append(cases, fc)
+			}
 			add(faultCase{Kind: "chunks"})
 			add(faultCase{Kind: "chunks", EOFData: true})
+			if tk.sweep {
+				add(faultCase{Kind: "chunks", Rest: 7})
+				add(faultCase{Kind: "prefix", K: L - 1})
+				if L > 41 {
+					add(faultCase{Kind: "prefix", K: L - 41})
+				}
+				var evals int64
+				for _, fc := range cases {
+					fc := fc
+					x := NewExec("C13", func() Case { return mkCase("fault", fc) })
+					evals += evalFault(x, fc)
+					c.Col.Add(x.Viol...)
+				}
+				c.Cov.AddTransitions(int64(len(cases)))
+				c.Cov.AddEvals(evals)
+				c.Cov.AddExtra("fault_points", int64(len(cases)))
+				return
+			}
 			sizes := append([]int(nil), fixed...)
 			if L/2 > 0 {
 				sizes = append(sizes, L/2)
